@@ -872,8 +872,9 @@ static void conn_case(Run &r, Ctx &x, int idlen, bool dgram)
 // mpt_connection_await does); replies arrive on a stream and are delivered by mpt_connection_dispatch (stream branch)
 // or by mpt_stream_sync.  Every case runs in a forked child (a spinning sync would otherwise stall the explorer).
 // =====================================================================
-enum RLetter { R_ID1, R_ID2, R_UNKNOWN, R_ID1_AGAIN, R_SHORT, R_EMPTY, R_TOOWIDE, R_NLETTER };
-static const char *rletternm[] = {"reply for request 1", "reply for request 2", "reply for an id nobody waits for", "another reply for request 1", "frame of the single byte 80 (shorter than an id)", "empty frame", "reply whose id needs more than 64 bit"};
+enum RLetter { R_ID1, R_ID2, R_UNKNOWN, R_ID1_AGAIN, R_SHORT, R_EMPTY, R_TOOWIDE, R_IDQ, R_NLETTER };
+static const char *rletternm[] = {"reply for request 1", "reply for request 2", "reply for an id nobody waits for", "another reply for request 1", "frame of the single byte 80 (shorter than an id)", "empty frame", "reply whose id needs more than 64 bit", "reply for the request waiting behind requests 1 and 2 in the wait list"};
+static const char *g_failwho = 0;          // the requester whose reply handler reports an error (0 = none)
 static const uint64_t PATTERN_ID = 0xAAAAAAAAAAAAAAAAULL;    // what an uninitialised 64 bit local holds in this build
 struct RCase { std::string log; };
 static RCase *g_rcase = 0;
@@ -885,12 +886,13 @@ static int wait_handler(void *arg, void *msgp)
 	uint8_t tag[2] = {'?', '?'};
 	mpt::mpt_message_read(&m, 2, tag);
 	g_rcase->log += std::string(who) + ":" + (char) tag[0] + (char) tag[1] + ";";
+	if (g_failwho && !strcmp(g_failwho, who)) { g_rcase->log += "handler-error;"; return -1; }
 	return 0;
 }
 static int generic_handler(void *, mpt::event *) { g_rcase->log += "generic;"; return 0; }
-static std::string req_child(int idlen, bool sync, const std::vector<int> &letters, bool rereg)
+static std::string req_child(int idlen, bool sync, const std::vector<int> &letters, bool rereg, int failing)
 {
-	RCase c; g_rcase = &c;
+	RCase c; g_rcase = &c; g_failwho = failing == 1 ? "A1" : (failing == 2 ? "A2" : 0);
 	int sv[2];
 	if (socketpair(AF_UNIX, SOCK_STREAM, 0, sv) < 0) return "setup-failed";
 	fcntl(sv[0], F_SETFL, O_NONBLOCK);
@@ -923,6 +925,7 @@ static std::string req_child(int idlen, bool sync, const std::vector<int> &lette
 	for (int l : letters) {
 		std::vector<uint8_t> m(idlen, 0);
 		uint64_t id = l == R_ID2 ? 2 : (l == R_UNKNOWN ? 7 : 1);
+		if (l == R_IDQ) { if (idlen >= 9) id = PATTERN_ID; else { id = 0x2A; for (int i = 1; i < idlen; ++i) id = id << 8 | 0xAA; } }
 		for (int i = 0; i < idlen && i < 8; ++i) m[idlen - 1 - i] = (uint8_t) (id >> 8 * i);
 		if (l == R_TOOWIDE) { std::fill(m.begin(), m.end(), 0); m[0] = 0x01; m[1] = 0x80; }
 		m[0] |= 0x80;
@@ -934,7 +937,15 @@ static std::string req_child(int idlen, bool sync, const std::vector<int> &lette
 	}
 	auto rounds = [&](int n) {
 		for (int i = 0; i < n; ++i) {
-			if (sync) { int ret = mpt::mpt_stream_sync(srm, idlen, &con->_wait, 0); c.log += fmt("sync=%d;", ret < 0 ? -1 : (ret > 0 ? 1 : 0)); }
+			if (sync) {
+				// wait list before the call: entries still waiting and whether one of them sits behind an answered slot (compaction must move it)
+				auto waiting = [&]() -> size_t { const mpt::buffer *wb = *(const mpt::buffer **) wait; return wb ? wb->_used / sizeof(mpt::command) : 0; };
+				size_t wn = waiting();
+				int ret = mpt::mpt_stream_sync(srm, idlen, &con->_wait, 0);
+				size_t wn2 = waiting();
+				if (wn2 && wn2 < wn) c.log += "compacted-live;";
+				c.log += fmt("sync=%d;", ret < 0 ? -1 : (ret > 0 ? 1 : 0));
+			}
 			else { mpt::mpt_stream_poll(srm, POLLIN, 0); mpt::mpt_connection_dispatch(con, generic_handler, 0); }
 		}
 	};
@@ -951,27 +962,31 @@ static std::string req_child(int idlen, bool sync, const std::vector<int> &lette
 static void req_case(Run &r, Ctx &x, int idlen)
 {
 	bool sync = x.choose(2) != 0;
-	size_t n = 1 + x.choose(2);
+	size_t n = 1 + x.choose(3);
+	std::vector<int> alpha = {R_ID1, R_ID2, R_UNKNOWN, R_ID1_AGAIN, R_SHORT, R_EMPTY, R_IDQ}; if (idlen >= 9) alpha.push_back(R_TOOWIDE);
 	std::vector<int> letters;
-	for (size_t i = 0; i < n; ++i) letters.push_back((int) x.choose(idlen >= 9 ? R_NLETTER : R_NLETTER - 1));
+	for (size_t i = 0; i < n; ++i) letters.push_back(alpha[x.choose(alpha.size())]);
 	bool rereg = x.choose(2) != 0;
+	int failing = (int) x.choose(3);          // 0: every reply handler returns 0, 1/2: the handler of request 1/2 reports an error
 	std::string desc = fmt("requester idlen=%d via %s:", idlen, sync ? "mpt_stream_sync" : "mpt_connection_dispatch");
 	for (int l : letters) desc += std::string(" [") + rletternm[l] + "]";
 	if (rereg) desc += " then a new request reuses id 1";
+	if (failing) desc += fmt("; the reply handler of request %d returns an error", failing);
 	r.note("%s", desc.c_str());
 	++r.transitions;
 	const char *grp = sync ? "sync" : "connreq";
 	r.hint(grp);
-	std::string out = in_child([&]() { return req_child(idlen, sync, letters, rereg); }, 2);
+	std::string out = in_child([&]() { return req_child(idlen, sync, letters, rereg, failing); }, 2);
 	r.note("deliveries: %s", out.c_str());
 	if (out == "setup-failed") { r.incomplete("requester setup failed"); return; }
 	if (!out.empty() && out[0] == '\x01') { r.violation(std::string(grp) + "|" + (out == "\x01HANG" ? "HANG" : (out.compare(1, 3, "SIG") == 0 ? "SIGNAL" : "EXIT")), desc + " child ended with " + out.substr(1)); return; }
 	// expected receiver of each tag
 	std::map<std::string, std::string> owner; std::map<std::string, int> seen; std::map<std::string, int> got;
-	int first1 = -1;
+	int first1 = -1, firstq = -1; bool compacted = out.find("compacted-live;") != std::string::npos;
 	for (size_t i = 0; i < letters.size(); ++i) {
 		std::string tag = fmt("t%zu", i);
 		if (letters[i] == R_ID2) owner[tag] = "A2";
+		else if (letters[i] == R_IDQ) { owner[tag] = firstq < 0 ? (idlen >= 9 ? "AP" : "AQ") : ""; if (firstq < 0) firstq = (int) i; }
 		else if (letters[i] == R_ID1 || letters[i] == R_ID1_AGAIN) { owner[tag] = first1 < 0 ? "A1" : ""; if (first1 < 0) first1 = (int) i; }   // a second reply for request 1 has no requester left
 		else owner[tag] = "";
 	}
@@ -984,7 +999,8 @@ static void req_case(Run &r, Ctx &x, int idlen)
 		std::string who = ev.substr(0, c2), tag = ev.substr(c2 + 1);
 		if (tag == "cancel") continue;
 		if (tag == "??") { r.violation(std::string(grp) + "|" + (letters.size() > 1 ? "two-replies" : "one-reply") + "|frame-without-id-delivered", desc + " a frame that carries no complete id was handed to request " + who + "; deliveries: " + out); return; }
-		std::string cls = letters.size() > 1 ? "two-replies" : "one-reply";
+		std::string cls = letters.size() > 2 ? "three-replies" : (letters.size() > 1 ? "two-replies" : "one-reply");
+		if (compacted) cls += "+compaction";
 		if (who == "B1") { r.violation(std::string(grp) + "|" + (after_rereg ? "id-reused" : cls) + "|delivered-to-later-request", desc + " the new request, which the peer never answered, received reply " + tag + "; deliveries: " + out); return; }
 		if (++seen[tag] > 1) { r.violation(std::string(grp) + "|" + cls + "|reply-delivered-twice", desc + " reply " + tag + " was delivered twice; deliveries: " + out); return; }
 		if (!owner.count(tag) || owner[tag] != who) {
@@ -992,7 +1008,10 @@ static void req_case(Run &r, Ctx &x, int idlen)
 			r.violation(std::string(grp) + "|" + cls + (wide ? "|id-too-wide-delivered" : (owner.count(tag) && owner[tag].empty() && who == "A1" ? "|request-answered-twice" : "|wrong-requester")), desc + " reply " + tag + " was handed to request " + who + "; deliveries: " + out); return;
 		}
 		++got[who];
+		if (compacted && (who == "AQ" || who == "AP") && out.find("compacted-live;") < out.find(who + ":" + tag)) r.count(std::string(grp) + ": request moved by the wait list compaction received its own reply");
 	}
+	if (compacted) r.count(std::string(grp) + ": wait list compacted while requests were still waiting");
+	if (failing && out.find("handler-error;") != std::string::npos) r.count(std::string(grp) + ": reply handler reported an error");
 	for (auto &o : owner) if (!o.second.empty() && !seen.count(o.first)) r.count(std::string(grp) + ": reply not delivered to its waiting request (not flagged)");
 	for (auto &g : got) r.count(std::string(grp) + ": reply delivered exactly once to the request with its id", g.second);
 	if (rereg) r.count(std::string(grp) + ": later request reusing the id received nothing");
@@ -1060,7 +1079,7 @@ void mc_explore(Run &r, const std::string &job)
 	if (job.compare(0, 10, "requester:") == 0) {
 		int l = atoi(job.c_str() + 16);
 		r.require("sync: reply delivered exactly once to the request with its id"); r.require("connreq: reply delivered exactly once to the request with its id");
-		r.require("sync: later request reusing the id received nothing"); r.require("connreq: later request reusing the id received nothing");
+		r.require("sync: later request reusing the id received nothing"); r.require("sync: wait list compacted while requests were still waiting"); r.require("sync: request moved by the wait list compaction received its own reply"); r.require("sync: reply handler reported an error"); r.require("connreq: reply handler reported an error"); r.require("connreq: later request reusing the id received nothing");
 		if (l == 2) r.sample("requester idlen=2: requests 1 and 2 wait in the command array; 1-2 replies from {for 1, for 2, unknown id, second for 1, id > 64 bit} arrive and are delivered by mpt_connection_dispatch or mpt_stream_sync; then optionally a new request reuses id 1");
 		dfs(r, [&](Ctx &x) { req_case(r, x, l); });
 		return;
